@@ -7,6 +7,7 @@ import (
 	"fmt"
 	"go/ast"
 	"go/types"
+	"strings"
 )
 
 func (x *Exec) compOf(h *Heap, name string, s Sort) *Term {
@@ -323,6 +324,21 @@ func (x *Exec) assumeValid(st *State, v *Term, t types.Type, depth int) {
 		return
 	}
 	w := x.w
+	if r := w.abstractRec(t); r != nil {
+		// record view of an instruction word: kinds are 3-bit, the opcode 7-bit, addresses 16-bit signed
+		for i, f := range r.Fields {
+			g := r.Get(v, i)
+			switch {
+			case strings.HasPrefix(f.Name, "bc_op"):
+				st.assume(And(w.Le(w.Int(0), g), w.Le(g, w.Int(127))))
+			case strings.HasPrefix(f.Name, "bc_k"):
+				st.assume(And(w.Le(w.Int(0), g), w.Le(g, w.Int(7))))
+			default:
+				st.assume(And(w.Le(w.Int(-32768), g), w.Le(g, w.Int(32767))))
+			}
+		}
+		return
+	}
 	if depth == 0 || true {
 		if inv := x.typeInvTerm(st, v, t); inv != nil {
 			st.assume(inv)
